@@ -75,6 +75,15 @@ func (e *Engine) contractOf(fn *ssa.Function) *Contract {
 			return c
 		}
 	}
+	if !e.inModule(pkgOf(fn)) {
+		name := fn.String()
+		for _, ps := range e.specs {
+			if c, ok := ps.ExtFuncs[name]; ok {
+				e.trustedUsed["ASSUMED contract of dependency function "+name+" (declared in "+ps.Pkg+")"] = true
+				return c
+			}
+		}
+	}
 	return nil
 }
 
@@ -582,7 +591,16 @@ func (e *Engine) applyContract(st *State, fn *ssa.Function, c *Contract, args []
 		}
 	}
 	qn := &e.qn
-	env := &SpecEnv{e: e, st: st, old: pre, vars: vars, oldVar: vars, pkg: pkgOf(fn), qn: qn}
+	specPkg := pkgOf(fn)
+	if c.ExternDep {
+		// assumed contract of a dependency function: names resolve in the package that declares it
+		for _, tp := range e.allTypesPkgs {
+			if tp.Path() == c.Pkg {
+				specPkg = tp
+			}
+		}
+	}
+	env := &SpecEnv{e: e, st: st, old: pre, vars: vars, oldVar: vars, pkg: specPkg, qn: qn}
 	callee := fn.RelString(pkgOf(fn))
 	if e.cur != nil {
 		e.cur.usedContracts[fn.String()] = true
@@ -629,7 +647,7 @@ func (e *Engine) applyContract(st *State, fn *ssa.Function, c *Contract, args []
 		}
 		rv = e.freshValue(st, "ret_"+fn.Name(), sig.Results())
 	}
-	post := &SpecEnv{e: e, st: st, old: pre, vars: vars, oldVar: vars, pkg: pkgOf(fn), qn: qn, hasRes: true}
+	post := &SpecEnv{e: e, st: st, old: pre, vars: vars, oldVar: vars, pkg: specPkg, qn: qn, hasRes: true}
 	if sig.Results().Len() == 1 {
 		post.result = wrapTyped(rv, sig.Results().At(0).Type())
 	} else {
@@ -641,7 +659,7 @@ func (e *Engine) applyContract(st *State, fn *ssa.Function, c *Contract, args []
 			post.vars[k] = v
 		}
 		for _, w := range c.Witness {
-			t := e.resolveType(pkgOf(fn), w.Type)
+			t := e.resolveType(specPkg, w.Type)
 			wv := wrapTyped(e.freshValue(st, "wit_"+w.Name, t), t)
 			post.vars[w.Name] = wv
 			st.ghost["wit:"+callee+"."+w.Name] = wv
@@ -652,7 +670,7 @@ func (e *Engine) applyContract(st *State, fn *ssa.Function, c *Contract, args []
 	}
 	for _, cs := range c.Cases {
 		var rq []Term
-		preEnv := &SpecEnv{e: e, st: pre, old: pre, vars: vars, oldVar: vars, pkg: pkgOf(fn), qn: qn}
+		preEnv := &SpecEnv{e: e, st: pre, old: pre, vars: vars, oldVar: vars, pkg: specPkg, qn: qn}
 		for _, r := range cs.Requires {
 			rq = append(rq, e.evalSpecBool(preEnv, r.Expr))
 		}
